@@ -6,6 +6,8 @@ package main
 // the real receiver's decoder against reference-encoded lists with every legal compression.
 
 import (
+	"encoding/binary"
+	"os/exec"
 	"bytes"
 	"fmt"
 	"io"
@@ -396,6 +398,11 @@ func suiteFlist(h *H) {
 			h.stat("flist.dec.hostile")
 		}
 	}
+	// (3) a second, independent implementation as the encoder: tridge rsync (when installed) run as
+	// `rsync --server --sender` at protocol 27 on real trees. Its file list — which uses name-prefix
+	// sharing, one-byte lengths and the SAME_* flags wherever it can — must decode with the reference
+	// decoder to exactly the tree, and the real ReceiveFileList and the Lean decoder must read it the same way.
+	tridgeFlist(h)
 }
 
 func treeHasNonUTF8Dir(root string) bool {
@@ -473,5 +480,140 @@ func entrySectionLen(data []byte, o refOpts) int {
 			return 0
 		}
 		prev = e
+	}
+}
+
+// tridgeFlist runs tridge rsync as the sender of generated trees and feeds what it writes to the decoders.
+func tridgeFlist(h *H) {
+	bin, err := exec.LookPath("rsync")
+	if err != nil {
+		h.stat("flist.tridge.absent")
+		return
+	}
+	base, err := os.MkdirTemp("", "verif-tridge")
+	if err != nil {
+		return
+	}
+	defer os.RemoveAll(base)
+	isRoot := os.Geteuid() == 0
+	for i := 0; i < h.n(12, 200); i++ {
+		dir := filepath.Join(base, fmt.Sprintf("t%d", i))
+		os.MkdirAll(dir, 0o755)
+		old := syscall.Umask(0)
+		var dirs = []string{dir}
+		n := 1 + h.rng.Intn(25)
+		for j := 0; j < n; j++ {
+			parent := dirs[h.rng.Intn(len(dirs))]
+			name := []string{"a", "ab", "abc", "abcd-long-shared-prefix-0001", "abcd-long-shared-prefix-0002", "abcd-long-shared-prefix-0002x", "b", "z.txt", "caf\xc3\xa9", "sp ace", strings.Repeat("n", 200)}[h.rng.Intn(11)]
+			p := filepath.Join(parent, name)
+			if _, err := os.Lstat(p); err == nil {
+				continue
+			}
+			switch k := h.rng.Intn(12); {
+			case k < 6:
+				os.WriteFile(p, h.bytes(h.pick(0, 1, 700, 70000)), os.FileMode(h.pick(0o644, 0o600, 0o755)))
+			case k < 8:
+				os.Mkdir(p, os.FileMode(h.pick(0o755, 0o700)))
+				dirs = append(dirs, p)
+			case k < 10:
+				os.Symlink(h.pickS("a", "../x", "/abs/target", strings.Repeat("t", 300)), p)
+			case k == 10:
+				syscall.Mkfifo(p, 0o644)
+			default:
+				if isRoot {
+					syscall.Mknod(p, syscall.S_IFCHR|0o600, 0x0103)
+				}
+			}
+			if isRoot && h.rng.Intn(3) == 0 {
+				os.Lchown(p, h.pick(0, 1, 1000, 65534), h.pick(0, 2, 1000, 65534))
+			}
+			if fi, err := os.Lstat(p); err == nil && fi.Mode()&os.ModeSymlink == 0 {
+				t := time.Unix(int64(h.pick(0, 1500000000, 1500000000, 1600000000, 1<<31-1)), 0)
+				os.Chtimes(p, t, t)
+			}
+		}
+		syscall.Umask(old)
+		for _, oc := range []struct {
+			flags string
+			o     refOpts
+		}{{"-logDtpr", refOpts{uid: true, gid: true, links: true, devices: true, specials: true}}, {"-ltr", refOpts{links: true}}, {"-r", refOpts{}}, {"-ogr", refOpts{uid: true, gid: true}}} {
+			cmd := exec.Command(bin, "--server", "--sender", oc.flags, ".", dir+"/")
+			stdin, _ := cmd.StdinPipe()
+			stdout, _ := cmd.StdoutPipe()
+			cmd.Stderr = io.Discard
+			if err := cmd.Start(); err != nil {
+				continue
+			}
+			var v27 [4]byte
+			binary.LittleEndian.PutUint32(v27[:], 27)
+			stdin.Write(v27[:])
+			stdin.Write([]byte{0, 0, 0, 0}) // empty filter list
+			var raw []byte
+			done := make(chan struct{})
+			go func() {
+				buf := make([]byte, 64*1024)
+				for {
+					n, err := stdout.Read(buf)
+					raw = append(raw, buf[:n]...)
+					if err != nil {
+						break
+					}
+					if len(raw) > 8 {
+						d, _, whole := demuxPartial(raw[8:])
+						if whole {
+							if _, _, left, derr := refDecodeList(d, oc.o); derr == nil && len(left) == 0 {
+								break
+							}
+						}
+					}
+				}
+				close(done)
+			}()
+			select {
+			case <-done:
+			case <-time.After(10 * time.Second):
+			}
+			cmd.Process.Kill()
+			cmd.Wait()
+			<-done
+			if len(raw) < 8 {
+				h.stat("flist.tridge.noanswer")
+				continue
+			}
+			data, _ := demuxAll(raw[8:])
+			want := refWalk(dir, oc.o)
+			// tridge sends directory sizes as they are; the comparison leaves sizes of directories out (gokrazy overrides them too)
+			impl, got := implDecode(oc.o, data)
+			v := ""
+			es, _, rest, derr := refDecodeList(data, oc.o)
+			norm := func(l []refEntry) string {
+				c := append([]refEntry{}, l...)
+				for k := range c {
+					if c[k].isDir() {
+						c[k].size = 0
+					}
+					if !oc.o.uid {
+						c[k].uid = 0
+					}
+					if !oc.o.gid {
+						c[k].gid = 0
+					}
+				}
+				return sortedLines(c, oc.o)
+			}
+			switch {
+			case derr != nil || len(rest) != 0:
+				v = fmt.Sprintf("FAIL the reference decoder cannot read tridge rsync's protocol-27 file list (%v, %d bytes left): the reference codec itself is wrong", derr, len(rest))
+			case norm(es) != norm(want):
+				v = "FAIL the reference decoder reads tridge rsync's list to something other than the tree: " + firstDiff(strings.ReplaceAll(norm(es), ";", "\n"), strings.ReplaceAll(norm(want), ";", "\n"))
+			case !strings.HasPrefix(impl, "ok "):
+				v = "FAIL gokrazy's receiver does not accept tridge rsync's protocol-27 file list: " + impl
+			case norm(got) != norm(want):
+				v = "FAIL gokrazy's receiver reads tridge rsync's list to something other than the tree: " + firstDiff(strings.ReplaceAll(norm(got), ";", "\n"), strings.ReplaceAll(norm(want), ";", "\n"))
+			}
+			h.emit(fmt.Sprintf("flist.dec %s %s #tridge %s", oc.o, hx(data), oc.flags), impl, v, len(es) > 1)
+			h.stat("flist.tridge")
+		}
+		os.RemoveAll(dir)
 	}
 }
